@@ -11,7 +11,8 @@ An incoming stanza is abstracted to exactly what those functions look at:
   child         : tagName, namespaceURI, text, element children          (candidate <sent/>/<received/>/<body/>)
   grandchild    : tagName, namespaceURI, element children                (candidate <forwarded/>)
   great-grandch.: tagName, namespaceURI, attributes id/from/to, body     (candidate inner <message/>)
-`tag` is what `QDomElement::tagName()` returns (the qualified name, so a prefixed `c:sent` is not `sent`),
+`tag` is what `QDomElement::tagName()` returns (with Qt 5.15's namespace-processing parse that is the local
+name: `<c:sent xmlns:c=…>` has tagName `sent`; the harness renders prefixed forms and checks the DOM),
 `ns` what `namespaceURI()` returns ("" when none).  Attributes are `Option String`; the code reads them with
 `QDomElement::attribute(name)`, which yields the empty string for an absent attribute (`attrVal`).
 Strings are compared exactly as the code does: plain equality, no JID normalisation, no case folding.
